@@ -87,7 +87,7 @@ def _ring_or_box(r: random.Random, n_labels: int, wide: float) -> Dict[str, Any]
     }
 
 
-def gen_scenario(r: random.Random, task: Optional[str] = None, n_frames: Optional[int] = None, big: bool = False) -> Scenario:
+def gen_scenario(r: random.Random, task: Optional[str] = None, n_frames: Optional[int] = None, big: bool = False, fp_share: Optional[float] = None, overrides: Optional[Dict[str, Any]] = None) -> Scenario:
     task = task or r.choice(["detection", "detection", "tracking", "fp_validation"])
     n_frames = n_frames or r.randint(1, 4 if not big else 8)
     wide = r.choice([30.0, 60.0, 100.0])
@@ -102,7 +102,8 @@ def gen_scenario(r: random.Random, task: Optional[str] = None, n_frames: Optiona
 
     n_tracks = r.randint(0, 10 if not big else 20)
     cats = GT_CATEGORIES if task != "fp_validation" else [c for c in GT_CATEGORIES if c[0] == "false_positive"]
-    fp_share = r.choice([0.0, 0.15, 0.4]) if task != "fp_validation" else 1.0
+    _fp_default = r.choice([0.0, 0.15, 0.4]) if task != "fp_validation" else 1.0
+    fp_share = _fp_default if fp_share is None else fp_share
     tracks = []
     for i in range(n_tracks):
         if r.random() < fp_share:
@@ -234,6 +235,8 @@ def gen_scenario(r: random.Random, task: Optional[str] = None, n_frames: Optiona
         for k_ in ("center_distance_thresholds", "plane_distance_thresholds", "iou_2d_thresholds", "iou_3d_thresholds"):
             cfg.pop(k_)
 
+    if overrides:
+        cfg.update(overrides)
     critical, passfail = [], []
     for k in range(n_frames):
         # NOTE: the library indexes per-label dictionaries built from the critical filter's labels with the
